@@ -6,6 +6,11 @@ on generated hostile archives; every run of the real code is observed (sys.addau
 os.stat / shutil.rmtree) and the observed event list is fed to the Lean-defined acceptor `confined`.
 search: the property statement itself, checked on the real code with canary files, two host states,
 file-system snapshots and a Python-side confinement check (independent of the Lean model).
+The filters ("hidden members, resource forks, nested archives, unsupported types and oversize members never
+produce results") are judged by CONTENT on every real run (`content_leaks`), on a filter by-pass family
+(`bypass_battery`, `_inject_bypass`); the 7z private directory is snapshotted when it is removed and compared
+with the model's `tempFiles`; a failing archive is confirmed in a fresh interpreter, with the earlier archives of
+the process as replayed `history` if it only fails after them (`confirm_fresh`).
 """
 from __future__ import annotations
 
@@ -38,7 +43,14 @@ RULE = ("archives = format (zip | tar, tar.gz, tar.bz2, tar.xz | 7z solid / no-f
         "nested-archive aliases, zip-based garbage) x size (around a lowered max_memory_size) x consumer (exhaust, close "
         "after k, raise in consumer after k, never started) x corruption (none, truncated, CRC); distinct = distinct "
         "(format, member specs, consumer); non-trivial = at least one member passes the skip rules or touches the "
-        "file system; plus path strings over a slash/dot/backslash alphabet for join/normpath/dirname/_safe_join")
+        "file system; plus path strings over a slash/dot/backslash alphabet for join/normpath/dirname/_safe_join; plus the "
+        "filter by-pass family on every run (fixed battery of 240 archives + injected into 30% of the random ones): a member that "
+        "must not produce results (hidden, hidden in a sub-directory, __MACOSX, unsupported, nested, oversize) with a payload of "
+        "its own x a member of innocent name referring to it (TAR hard link / ./-spelled / chained hard link, symbolic link, "
+        "same name twice around the size limit, same basename outside __MACOSX, 7z second spelling of the same path, 7z "
+        "empty-file / stream-less entry of the same name, ZIP symlink member) x order x 7z layout; link targets of random TAR "
+        "links are drawn from the archive's own members; every real run is judged by content (no filtered payload in any "
+        "result) and, for 7z, the private directory is snapshotted when it is removed and compared with the model's tempFiles")
 ASSUMPTIONS = [
     "CPython: str.lower, mimetypes.guess_type are parameters of the model (any function in the theorems)",
     "zipfile/tarfile: member list, is_dir/isreg/flag_bits/file_size and the bytes read are parameters of the model; "
@@ -52,6 +64,11 @@ ASSUMPTIONS = [
     "7z header parsing (bytes -> names, flags, sizes, folders) is C10's subject; the C09 model starts from the parsed "
     "header, produced independently by the harness's own 7z writer",
     "hidden member = basename starts with '.' or name starts with '__MACOSX/' (the mechanism named by the property)",
+    "the content oracle classifies a member by the name zipfile / tarfile REPORT for it (tarfile strips the trailing slash of a "
+    "pax path, zipfile cuts at NUL) and by its own payload length; only payloads (printable ASCII, >= 12 characters) that occur in no "
+    "member that may produce results are judged",
+    "tarfile.extractfile follows hard and symbolic links to another member's bytes: what it returns for a non-regular member is a "
+    "parameter of the model (theorem C09_tar_links_irrelevant: it cannot matter under the source's member-kind guard)",
 ]
 TRUSTED = [
     "model of posixpath.join/normpath/abspath/dirname/basename in S2T/Model/Archive.lean (tied by correspondence on random paths)",
@@ -76,6 +93,7 @@ class _Obs:
     active = False
     in_rmtree = 0
     events: list = []
+    tmpsnap: list = []     # [path, size, first 4096 bytes (latin-1)] of every regular file found in a directory at rmtree time
     orig_stat = os.stat
     orig_lstat = os.lstat
     orig_rmtree = shutil.rmtree
@@ -160,11 +178,35 @@ class _Obs:
             return cls.orig_rmtree(path, *a, **k)
         cls.in_rmtree += 1
         try:
+            if cls.in_rmtree == 1:
+                cls._snapshot(path)
             return cls.orig_rmtree(path, *a, **k)
         finally:
             cls.in_rmtree -= 1
             gone = not os.path.lexists(path) if cls.in_rmtree == 0 else True
             cls.events.append(["rmtree", cls._p(path), bool(gone)])
+
+    @classmethod
+    def _snapshot(cls, path):
+        """what the directory holds at the moment it is removed (the recording is suspended: in_rmtree > 0)"""
+        try:
+            n = 0
+            for dp, dns, fns in os.walk(path):
+                dns.sort()
+                for fn in sorted(fns):
+                    q = os.path.join(dp, fn)
+                    st = cls.orig_lstat(q)
+                    if not statmod.S_ISREG(st.st_mode):
+                        cls.tmpsnap.append([q, -1, "<not a regular file>"])
+                        continue
+                    with open(q, "rb") as fh:
+                        head = fh.read(4096)
+                    cls.tmpsnap.append([q, st.st_size, head.decode("latin-1")])
+                    n += 1
+                    if n >= 2000:
+                        return
+        except Exception as e:
+            cls.tmpsnap.append(["<snapshot failed>", -1, repr(e)])
 
     @classmethod
     def install(cls):
@@ -176,6 +218,7 @@ class _Obs:
         c = type(self)
         c.install()
         c.events = []
+        c.tmpsnap = []
         os.stat, os.lstat, shutil.rmtree = c._stat, c._lstat, c._rmtree
         c.active = True
         return self
@@ -185,6 +228,7 @@ class _Obs:
         c.active = False
         os.stat, os.lstat, shutil.rmtree = c.orig_stat, c.orig_lstat, c.orig_rmtree
         self.events = c.events
+        self.tmpsnap = c.tmpsnap
         return False
 
 
@@ -442,9 +486,15 @@ def gen_spec(rng, fmt=None, small=True):
         m = {"name": name, "kind": kind, "data": data}
         if kind in ("symlink", "hardlink"):
             m["link"] = rng.choice(["{SB}/secret.txt", "../../secret.txt", "/etc/passwd", "a.txt", prev[0]])
+            if len(prev) > 1 and rng.random() < 0.5:
+                # tarfile.extractfile follows links to OTHER members (hard links: earlier ones): aim at one, in several spellings
+                t = rng.choice(prev[:-1])
+                m["link"] = rng.choice([t, t, "./" + t, "x/../" + t])
         if fmt == "7z" and kind in ("dir", "empty", "orphan", "attrdir"):
             m["data"] = ""
         members.append(m)
+    if rng.random() < 0.3:
+        members = _inject_bypass(rng, fmt, members, SMALL_MAX if small else 10 * 1024 * 1024)
     if fmt == "7z":
         # streams are matched by position: keep stream-bearing entries before the orphans (see the builder's docstring)
         members.sort(key=lambda m: 1 if m["kind"] == "orphan" else 0)
@@ -457,6 +507,111 @@ def gen_spec(rng, fmt=None, small=True):
     elif r < 0.10:
         spec["corrupt"] = "header-crc" if fmt == "7z" else "flip"
     return spec
+
+
+# ---------------------------------------------------------------------------- filter by-pass family
+# A member F that must NOT produce results (hidden, resource fork, unsupported type, nested archive, oversize) with a
+# payload that occurs nowhere else in the archive, next to a member A with an innocent name that REFERS to F by one of
+# the mechanisms the formats offer: TAR hard / symbolic link (tarfile.extractfile follows them), the same name a second
+# time (selection by name instead of by entry), another spelling of the same path (7z: both are written to one file of
+# the private directory), a ZIP symbolic-link member, a 7z entry without stream under F's name.
+F_CLASSES = ["hidden", "hidden-sub", "macosx", "unsupported", "nested", "oversize"]
+MECHS = {"tar": ["hardlink", "hardlink-dotslash", "hardlink-chain", "symlink", "symlink-sub", "dup-small", "same-basename", "copresent"],
+         "zip": ["symlink", "dup-small", "same-basename", "copresent"],
+         "7z": ["dup-small", "path-alias", "empty-same-name", "orphan-same-name", "same-basename", "copresent"]}
+
+
+def _payload(tag, ln):
+    body = f"member-{tag}-payload;"
+    return (body * (ln // len(body) + 1))[:ln]
+
+
+def _forbidden(cls, tag, lim, stem="cred"):
+    """member of class `cls` that must not produce results; its payload starts with a token unique to it"""
+    name = {"hidden": f".{stem}.txt", "hidden-sub": f"d/.{stem}.md", "macosx": f"__MACOSX/{stem}.txt", "unsupported": f"{stem}.bin",
+            "nested": f"{stem}.zip", "oversize": f"big-{stem}.txt"}[cls]
+    ln = lim + 1 + tag % 7 if cls == "oversize" else 30
+    return {"name": name, "kind": "file", "data": _payload(f"F{tag}-{cls}", ln)}
+
+
+def bypass_members(fmt, cls, mech, tag, lim, f_first=True, stem="cred"):
+    """members of one by-pass archive, or None if the combination makes no sense for the format"""
+    base = fmt.split(".")[0]
+    if mech not in MECHS[base]:
+        return None
+    F = _forbidden(cls, tag, lim, stem)
+    V = {"name": "report.txt", "kind": "file", "data": _payload(f"V{tag}", 24)}
+    small = {"kind": "file", "data": _payload(f"A{tag}", 20)}
+    if mech in ("hardlink", "hardlink-dotslash", "hardlink-chain", "symlink", "symlink-sub"):
+        kind = "hardlink" if mech.startswith("hardlink") else "symlink"
+        link = {"hardlink": F["name"], "hardlink-dotslash": "./" + F["name"], "hardlink-chain": F["name"], "symlink": F["name"],
+                "symlink-sub": "../" + F["name"]}[mech]
+        A = {"name": "sub/notes.txt" if mech == "symlink-sub" else "notes.txt", "kind": kind, "link": link, "data": ""}
+        extra = [{"name": "summary.md", "kind": "hardlink", "link": "notes.txt", "data": ""}] if mech == "hardlink-chain" else []
+        if kind == "symlink" and not f_first:
+            return [V, A, F]
+        return [V, F, A] + extra
+    if mech == "dup-small":
+        if cls != "oversize":
+            return None
+        A = {**small, "name": F["name"]}
+    elif mech == "path-alias":
+        if cls != "oversize":
+            return None
+        A = {**small, "name": ("x/../" if tag % 2 else "./") + F["name"]}
+    elif mech == "empty-same-name":
+        if cls != "oversize":
+            return None
+        A = {"name": F["name"], "kind": "empty", "data": ""}
+    elif mech == "orphan-same-name":
+        A = {"name": F["name"], "kind": "orphan", "data": ""}
+        return [V, F, A]
+    elif mech == "same-basename":
+        # a decision remembered per basename (or taken from another member of that basename) lets the fork through
+        if cls != "macosx":
+            return None
+        A = {**small, "name": "d/" + os.path.basename(F["name"])}
+    else:  # copresent
+        A = {**small, "name": "notes.txt"}
+    return [V, F, A] if f_first else [V, A, F]
+
+
+def bypass_battery(lim=None):
+    """the fixed battery: every format x class x mechanism x order (x 7z layout), deterministic"""
+    out = []
+    tag = 0
+    for fmt in ("tar", "tar.gz", "tar.bz2", "tar.xz", "zip", "7z"):
+        for cls in F_CLASSES:
+            for mech in MECHS[fmt.split(".")[0]]:
+                if fmt in ("tar.bz2", "tar.xz") and mech not in ("hardlink", "symlink", "dup-small", "same-basename"):
+                    continue   # the compressed wrappers share the member loop: three mechanisms each
+                for f_first in (True, False):
+                    for layout in (("solid", "perfile") if fmt == "7z" else (None,)):
+                        tag += 1
+                        # a basename of its own per archive: what an earlier archive left in the process cannot mask a case
+                        ms = bypass_members(fmt, cls, mech, tag, lim or SMALL_MAX, f_first, stem=f"c{tag}")
+                        if ms is None or (not f_first and mech.startswith("hardlink")) or (not f_first and mech == "orphan-same-name"):
+                            continue
+                        spec = {"fmt": fmt, "members": ms, "consumer": ["exhaust"], "max_memory": lim or SMALL_MAX}
+                        if layout:
+                            spec["layout"] = layout
+                        out.append(spec)
+    return out
+
+
+def _inject_bypass(rng, fmt, members, lim):
+    """put a forbidden member and a member referring to it into a random member list"""
+    base = fmt.split(".")[0]
+    cls = rng.choice(F_CLASSES + ["oversize", "oversize"])
+    mech = rng.choice(MECHS[base])
+    tag = rng.randint(100, 10 ** 6)
+    stem = rng.choice(["cred", "q", "ünï", "my file", "A"]) + (str(tag) if rng.random() < 0.5 else "")
+    ms = bypass_members(fmt, cls, mech, tag, lim, rng.random() < 0.6, stem)
+    if ms is None:
+        ms = bypass_members(fmt, cls, "copresent", tag, lim, rng.random() < 0.6, stem)
+    ms = ms[1:] if rng.random() < 0.5 else ms      # with / without the visible member
+    pos = rng.randint(0, len(members))
+    return members[:pos] + ms + members[pos:]
 
 
 _INNER = {}
@@ -506,9 +661,14 @@ def _canon_result(r):
     return {"path": fp, "text": txt, "blob": blob}
 
 
+_HISTORY: list = []     # every archive description handed to the real code in this process, in order (the code may keep state)
+
+
 def run_real(spec, sb: Sandbox, blob: bytes | None = None):
     """Run read_archive on the spec under observation, with the requested consumer behaviour.
     -> {"results": [...], "outcome": str, "events": [...], "leftover": [names in SB/tmp]}"""
+    if len(_HISTORY) < 100000:
+        _HISTORY.append(spec)
     from sharepoint2text.parsing.extractors import archive_extractor as ae
     from sharepoint2text.parsing.exceptions import ExtractionError
     if blob is None:
@@ -557,13 +717,15 @@ def run_real(spec, sb: Sandbox, blob: bytes | None = None):
             gen = None
             gc.collect()
         events = obs.events
+        tmpfiles = obs.tmpsnap
     finally:
         ae._config = saved_cfg
     leftover = sorted(os.listdir(sb.tmp))
     for n in leftover:  # keep the sandbox clean for the next case
         shutil.rmtree(os.path.join(sb.tmp, n), ignore_errors=True)
     events, probes = _split_probes(events, apath)
-    return {"results": [_canon_result(r) for r in results], "outcome": outcome, "events": events, "probes": probes, "leftover": leftover}
+    return {"results": [_canon_result(r) for r in results], "outcome": outcome, "events": events, "probes": probes, "leftover": leftover,
+            "tmpfiles": tmpfiles}
 
 
 # ============================================================================ model requests
@@ -627,11 +789,13 @@ def model_request(spec, sb: Sandbox, blob: bytes, base: str | None):
         ms = []
         for m in members:
             d = None
-            if m.isreg():
+            if m.isreg() or m.islnk() or m.issym():
+                # for a hard / symbolic link tarfile FOLLOWS the link to another member's bytes: the model is told so
+                # (`read` of a non-regular member; Props/C09_Filter.lean: C09_tar_links_irrelevant)
                 try:
                     f = tf.extractfile(m)
-                    d = list(f.read()) if f is not None else None
-                except Exception:
+                    d = list(f.read(8192)) if f is not None else None
+                except (Exception, RecursionError):
                     d = None
             ms.append({"name": m.name, "is_reg": m.isreg(), "size": m.size, "data": d})
         lowers, mimes = _lowers_mimes([m["name"] for m in ms])
@@ -753,6 +917,13 @@ def compare_case(ctx, spec, sb, real, model, ro):
     mev = [e for e in model["evs"] if e[0] in keep]
     if rev != mev:
         diffs.append(f"effects impl={rev!r} model={mev!r}")
+    if "tmp" in model:
+        rtmp = sorted((q, sz, d.encode("latin-1")) for q, sz, d in real.get("tmpfiles", []))
+        mtmp = sorted((q, len(d), bytes(d)[:4096]) for q, d in model["tmp"])
+        if rtmp != mtmp:
+            def _sh(l):
+                return [(q, sz, d[:24]) for q, sz, d in l][:6]
+            diffs.append(f"private directory when removed impl={_sh(rtmp)!r} model={_sh(mtmp)!r}")
     rstats = [e[1] for e in real["events"] if e[0] == "stat"]
     it = iter(rstats)
     for p in [e[1] for e in model["evs"] if e[0] == "stat"]:
@@ -817,6 +988,72 @@ def _member_class(name: str):
     return hidden, nested, bool(sharepoint2text.is_supported_file(bn))
 
 
+def _member_reason(m, name, lim):
+    """why this member must not produce results (None: it may) — judged from the archive description alone"""
+    hidden, nested, sup = _member_class(name)
+    if hidden:
+        return "hidden / resource-fork"
+    if nested:
+        return "nested-archive"
+    if not sup:
+        return "unsupported-type"
+    if len(_b(m)) > lim:
+        return f"oversize ({len(_b(m))} bytes, limit {lim})"
+    return None
+
+
+def _token(data: str):
+    """a recognisable piece of a member's payload (printable ASCII, at least 12 characters), or None"""
+    t = data[:40]
+    if len(t) >= 12 and t.isascii() and t.isprintable():
+        return t
+    return None
+
+
+def reported_names(spec, sb: Sandbox, blob: bytes):
+    """the member names as the container library reports them (zipfile cuts at NUL, tarfile strips the trailing slash of
+    a pax path, …: zipfile / tarfile are trusted parameters of the property), aligned with spec["members"]; the names of
+    the archive description where the container cannot be listed or lists another number of members"""
+    names = [_subst(m["name"], sb) for m in spec["members"]]
+    try:
+        fmt = spec["fmt"]
+        if fmt == "zip":
+            got = [i.filename for i in zipfile.ZipFile(io.BytesIO(blob)).infolist()]
+        elif fmt.startswith("tar"):
+            got = [m.name for m in tarfile.open(fileobj=io.BytesIO(blob), mode="r:" + (fmt.split(".")[-1] if fmt != "tar" else "")).getmembers()]
+        else:
+            return names
+    except Exception:
+        return names
+    return got if len(got) == len(names) else names
+
+
+def content_leaks(spec, sb: Sandbox, results, names=None):
+    """'Hidden members, resource forks, nested archives, unsupported types and oversize members never produce results',
+    judged by CONTENT: the payload of a member that must not produce results does not occur in any result, under whatever
+    name (a hard link, a second entry of the same name, another spelling of the same path …).  Only payloads that occur
+    in no member that MAY produce results are judged.  -> list[(key, what)]"""
+    lim = spec.get("max_memory") or 10 * 1024 * 1024
+    ms = spec["members"]
+    names = names or [_subst(m["name"], sb) for m in ms]
+    reasons = [(m, _member_reason(m, nm, lim)) for m, nm in zip(ms, names) if m["kind"] == "file" and _b(m)]
+    allowed_text = [m["data"] for m, why in reasons if why is None]
+    allowed_text += [_subst(m.get("link", ""), sb) for m in ms if m["kind"] != "file"] + [_subst(m["name"], sb) for m in ms] + list(names)
+    out = []
+    seen = set()
+    for m, why in reasons:
+        tok = _token(m["data"]) if why else None
+        if tok is None or tok in seen or any(tok in a for a in allowed_text):
+            continue
+        seen.add(tok)
+        for r in results:
+            if tok in (r["text"] or "") or tok in r["blob"]:
+                out.append(("filtered-member-content-in-results",
+                            f"the content of the {why} member {_subst(m['name'], sb)!r} ({tok[:28]!r}…) came out in the result {r['path']!r}"))
+                break
+    return out
+
+
 def oracle(ctx, spec, sb: Sandbox, ro):
     """Check the property statement on the real code for one spec.  -> list[(key, what)]"""
     out = []
@@ -853,7 +1090,9 @@ def oracle(ctx, spec, sb: Sandbox, ro):
     bad = _py_confined(ra["events"], sb, ro)
     if bad:
         out.append(("fs-access-outside-private-dir", "; ".join(bad[:3])))
-    # 3. hidden / resource fork / nested / unsupported / oversize members never produce results
+    # 3. hidden / resource fork / nested / unsupported / oversize members never produce results: by content …
+    out += content_leaks(spec, sb, ra["results"], reported_names(spec, sb, blob))
+    # … and by the name the result carries
     lim = spec.get("max_memory") or 10 * 1024 * 1024
     import pathlib
     sizes = {}
@@ -940,6 +1179,21 @@ CORPUS = [
         {"name": "only-skipped.bin", "kind": "file", "data": "folder with nothing wanted"}, {"name": "../evil.txt", "kind": "file", "data": "wanted but escaping: aborts"},
         {"name": "a.txt", "kind": "file", "data": "third folder"}]},
 ] + [w for _, w in WITNESSES]
+
+
+def _big_descr(spec):
+    """a spec with members of 10 MiB, described without the payload: data = [first 64 characters, length]"""
+    return {**spec, "members": [{**m, "data": [m["data"][:64], len(m["data"])]} for m in spec["members"]]}
+
+
+def _big_expand(d):
+    ms = []
+    for m in d["members"]:
+        head, ln = m["data"]
+        if ln > 12 * 1024 * 1024:
+            raise ValueError("member too large")
+        ms.append({**m, "data": ((head or "z") * (ln // max(1, len(head)) + 1))[:ln]})
+    return {**d, "members": ms}
 
 
 # ============================================================================ correspondence
@@ -1051,7 +1305,7 @@ def correspondence(ctx):
                                          f"(hidden={o.get('hidden')}, routes-to-archive={o.get('to_archive')})", case={"name": nm}))
         # ---- 3. whole archives: results, outcome, file-system effects, acceptor
         _calibrate(ctx, sb, broken)
-        specs = list(CORPUS)
+        specs = list(CORPUS) + bypass_battery()
         for _ in range(ctx.n(260, 6000)):
             specs.append(gen_spec(ctx.rng))
         # a few members around the real (default) limits
@@ -1060,7 +1314,16 @@ def correspondence(ctx):
             for fmt in ("zip", "tar.gz", "7z"):
                 specs.append({"fmt": fmt, "layout": "solid", "deflate": True, "consumer": ["exhaust"], "max_memory": None, "members": [
                     {"name": "at.txt", "kind": "file", "data": big}, {"name": "over.txt", "kind": "file", "data": big + "z"},
-                    {"name": "small.txt", "kind": "file", "data": "small"}]})
+                    {"name": "small.txt", "kind": "file", "data": "small"}], "expect": ["at.txt", "small.txt"]})
+            # the by-pass mechanisms once at the DEFAULT limit (10 MiB): a hard link to an oversize member, an oversize entry
+            # sharing its name with a small one (solid and one folder per file)
+            bigF = _payload("Fbig-oversize", 10 * 1024 * 1024 + 15)
+            specs.append({"fmt": "tar.gz", "consumer": ["exhaust"], "max_memory": None, "expect": ["report.txt"], "members": [
+                {"name": "report.txt", "kind": "file", "data": _payload("Vbig", 24)}, {"name": "big.txt", "kind": "file", "data": bigF},
+                {"name": "summary.txt", "kind": "hardlink", "link": "big.txt", "data": ""}]})
+            for layout in ("solid", "perfile"):
+                specs.append({"fmt": "7z", "layout": layout, "consumer": ["exhaust"], "max_memory": None, "expect": ["notes.txt"], "members": [
+                    {"name": "notes.txt", "kind": "file", "data": _payload("Abig", 20)}, {"name": "notes.txt", "kind": "file", "data": bigF}]})
         runs, reqs, idx = [], [], []
         conf_reqs = []
         for spec in specs:
@@ -1075,6 +1338,9 @@ def correspondence(ctx):
             if req is not None:
                 idx.append(len(runs) - 1)
                 reqs.append(req)
+            # the filters judged by content on every run of the real code (not only when something broke)
+            for key, what in content_leaks(spec, sb, real["results"], None if big_case else reported_names(spec, sb, blob)):
+                violations.append(Violation(key, what, {"spec": spec} if not big_case else {"bigspec": _big_descr(spec)}))
             evs = [e for e in real["events"]]
             conf_reqs.append({"op": "c09.confined", "tmp_root": sb.tmp, "ro": ro, "events": evs})
             kinds = sorted({m["kind"] for m in spec["members"]})
@@ -1084,9 +1350,12 @@ def correspondence(ctx):
             if big_case:
                 # default limits: the boundary members themselves are checked here (the model run is skipped for size)
                 got = sorted(r["path"].split("!/")[-1] for r in real["results"])
-                if got != ["at.txt", "small.txt"]:
+                small_txt = [r["text"] for r in real["results"] if len(r["text"] or "") < 4096]
+                want_txt = [m["data"] for m in spec["members"] if m["kind"] == "file" and len(m["data"]) < 4096 and m["name"] in spec["expect"]]
+                if got != spec["expect"] or sorted(small_txt) != sorted(want_txt):
                     broken.append(Broken("correspondence", "c09.default-limit", f"{spec['fmt']}: members producing results at the default "
-                                         f"max_memory_size: {got}, model: ['at.txt', 'small.txt']", case={"spec": {**spec, "members": "3 members at/over 10 MiB"}}))
+                                         f"max_memory_size: {got} (texts below 4 KiB: {[t[:30] for t in small_txt]}), model: {spec['expect']} "
+                                         f"({[t[:30] for t in want_txt]})", case={"bigspec": _big_descr(spec)}))
         outs = ctx.drive(reqs)
         by_run = dict(zip(idx, outs))
         couts = ctx.drive(conf_reqs)
@@ -1117,6 +1386,11 @@ def correspondence(ctx):
         ctx.coverage["mismatching_archives"] = nbad
     finally:
         sb.destroy()
+    if violations:
+        first = {}
+        for v in violations:
+            first.setdefault(v.key, v)
+        violations = confirm_fresh(ctx, list(first.values()), budget=6)
     return {"broken": broken, "violations": violations}
 
 
@@ -1146,7 +1420,7 @@ def _warm(sb):
     _WARM[0] = True
 
 
-def _oracle_specs(ctx, specs, limit_s=50):
+def _oracle_specs(ctx, specs, limit_s=50, history=None):
     import time
     t0 = time.time()
     ro = _ro_prefixes()
@@ -1154,6 +1428,11 @@ def _oracle_specs(ctx, specs, limit_s=50):
     found = {}
     try:
         _warm(sb)
+        for h in history or []:     # archives the process handled before the failing one (state kept between archives)
+            try:
+                run_real({**h, "consumer": ["exhaust"]}, sb)
+            except Exception as e:
+                ctx.notes.append(f"history archive crashed: {type(e).__name__}: {e}")
         for spec in specs:
             if time.time() - t0 > limit_s:
                 break
@@ -1165,10 +1444,80 @@ def _oracle_specs(ctx, specs, limit_s=50):
             for key, what in res:
                 k = ("7z." if spec["fmt"] == "7z" and key.startswith(("host-file-content", "results-depend", "fs-access")) else "") + key
                 if k not in found:
-                    found[k] = Violation(k, what, {"spec": spec})
+                    big = any(len(m.get("data", "")) > 65536 for m in spec["members"])
+                    found[k] = Violation(k, what, {"bigspec": _big_descr(spec)} if big else {"spec": spec})
     finally:
         sb.destroy()
     return list(found.values())
+
+
+def _fresh_fails(spec, history) -> bool:
+    """does the property fail on `spec` in a FRESH interpreter, after handling the `history` archives?"""
+    import subprocess
+    fd, path = tempfile.mkstemp(prefix="c09fresh_", suffix=".json")
+    try:
+        with os.fdopen(fd, "w") as fh:
+            json.dump({"property": "C09", "replay": {"spec": spec, "history": history}}, fh)
+        runpy = os.path.join(os.path.dirname(os.path.abspath(__file__)), "..", "run.py")
+        try:
+            r = subprocess.run([sys.executable, runpy, "C09", "--replay", path], capture_output=True, text=True, timeout=120)
+        except subprocess.TimeoutExpired:
+            return False
+        return "REPLAY-FAILS" in r.stdout
+    finally:
+        try:
+            os.unlink(path)
+        except OSError:
+            pass
+
+
+def _basenames(spec):
+    return {os.path.basename(m["name"].rstrip("/")) for m in spec.get("members", []) if isinstance(m.get("name"), str)}
+
+
+def confirm_fresh(ctx, vs, budget=10):
+    """A failing archive must fail when replayed in a fresh process.  If it does not, the failure depends on what the
+    process did before (state kept between archives / calls): the earlier archives of this process that share a member
+    basename with it are put in front as `history` (shrunk to one archive when one suffices) and the replay runs them
+    first; a failure that cannot be reproduced either way is reported without a failing input."""
+    out = []
+    for v in vs:
+        spec = v.replay.get("spec") if isinstance(v.replay, dict) else None
+        if not isinstance(spec, dict) or budget <= 0 or v.replay.get("history"):
+            out.append(v)
+            continue
+        budget -= 1
+        if _fresh_fails(spec, []):
+            out.append(v)
+            continue
+        names = _basenames(spec)
+        pos = max((i for i, h in enumerate(_HISTORY) if h is spec), default=len(_HISTORY))
+        prior = [h for h in _HISTORY[:pos] if h is not spec and names & _basenames(h)
+                 and not any(len(m.get("data", "")) > 65536 for m in h["members"])][-12:]
+        # state left by direct calls (not archives) is re-created by an archive holding the same basenames outside any
+        # special directory, in each format's loop
+        plain = {"fmt": spec["fmt"], "layout": "solid", "consumer": ["exhaust"], "max_memory": spec.get("max_memory"),
+                 "members": [{"name": "d/" + n, "kind": "file", "data": "history member"} for n in sorted(names) if n]}
+        hist = None
+        for cand in ([plain], prior, prior + [plain]):
+            if cand and budget > 0:
+                budget -= 1
+                if _fresh_fails(spec, cand):
+                    hist = cand
+                    break
+        if hist is None:
+            out.append(Violation(v.key, v.what + " — fails only in the process of this run: NOT reproduced in a fresh process, "
+                                 "neither alone nor after the earlier archives sharing a member name", v.replay, found_input=False))
+            continue
+        for h in reversed(hist):
+            if len(hist) > 1 and budget > 0:
+                budget -= 1
+                if _fresh_fails(spec, [h]):
+                    hist = [h]
+                    break
+        out.append(Violation(v.key, v.what + f" — only after {len(hist)} earlier archive(s) handled by the same process (replayed first)",
+                             {"spec": spec, "history": hist}))
+    return out
 
 
 def _shrinks(spec):
@@ -1204,12 +1553,17 @@ def search(ctx, broken):
                 specs.append({"fmt": fmt, "layout": "solid", "consumer": ["exhaust"], "max_memory": None, "members": [
                     {"name": b.case["name"], "kind": "file", "data": _inner_tar_gz(0)},
                     {"name": b.case["name"], "kind": "file", "data": "plain payload"}][: 2 if fmt != "7z" else 1]})
-    specs += [w for _, w in WITNESSES] + CORPUS
+        if b.case and isinstance(b.case.get("bigspec"), dict):
+            try:
+                specs.append(_big_expand(b.case["bigspec"]))
+            except Exception:
+                pass
+    specs += bypass_battery() + [w for _, w in WITNESSES] + CORPUS
     for _ in range(ctx.n(150, 1500)):
         specs.append(gen_spec(ctx.rng))
     vs = _oracle_specs(ctx, specs, limit_s=ctx.n(50, 500))
     # prefer the single-member reproductions: keep the first violation per key (shrinks come first)
-    return vs
+    return confirm_fresh(ctx, vs)
 
 
 def _probe_witness(ctx):
@@ -1248,7 +1602,9 @@ def known_witnesses(ctx):
 def replay(ctx, payload):
     rep = payload.get("replay", {})
     spec = rep.get("spec")
+    if not isinstance(spec, dict) and isinstance(rep.get("bigspec"), dict):
+        spec = _big_expand(rep["bigspec"])
     if not isinstance(spec, dict):
         return False, "replay names a broken obligation, not an input: " + payload.get("what", "")
-    vs = _oracle_specs(ctx, [spec])
+    vs = _oracle_specs(ctx, [spec], history=rep.get("history") if isinstance(rep.get("history"), list) else None)
     return (not vs), "; ".join(f"{v.key}: {v.what}" for v in vs) or "property holds on the recorded archive"
